@@ -14,6 +14,7 @@ use crate::props::c01::{case_text, payload, replay_lines};
 use crate::{Args, Rng, Run, hex};
 use bytes::Bytes;
 use rustrtc::transports::sctp::{DataChannelEvent, DataChannelOpen, SctpState};
+use rustrtc::verif_hooks::sctp as hook;
 use std::time::Duration;
 
 // ------------------------------------------------------------------------------------------
@@ -389,6 +390,78 @@ pub fn run(args: &Args) {
             run.case("chantype", &format!("{},{},{}", ord as u8, ou(mr), ou(ml)), &out, true);
         } } }
     }
+    // the PR-SCTP sender as a function (hook verif_pr_advance): `should_abandon`, `update_advanced_peer_ack_point`,
+    // `create_forward_tsn_chunk` on loaded sent queues — several streams, ordered and unordered, acked-by-gap records,
+    // TSN wrap. Oracle on the implementation: a record is abandoned only if a record of the *same message* (same stream,
+    // consecutive TSNs from a B to an E flag) exhausted its retransmissions or its lifetime.
+    {
+        let rt = tokio::runtime::Builder::new_current_thread().enable_all().build().unwrap();
+        rt.block_on(async {
+            let ep = Endpoint::new(55_900, 55_901, true, &EpCfg::default(), &[]).await;
+            let n = if args.tier_thorough { 6000 } else { 1500 };
+            let mut collateral = 0u64;
+            for k in 0..n {
+                let r0 = rng.next() as u32;
+                let base = *rng.pick(&[100u32, 0xFFFF_FFF8, 0x7FFF_FFFA, r0]);
+                // messages of 1..3 chunks on 1..3 streams (stream 1 ordered, 2 unordered, 3 ordered), consecutive TSNs
+                let mut q: Vec<hook::VRecord> = vec![];
+                let mut msg_of: Vec<usize> = vec![];
+                let mut next_ssn = [0u16; 4];
+                let mut tsn = base;
+                let nmsg = rng.range(1, 5) as usize;
+                for m in 0..nmsg {
+                    let sid = *rng.pick(&[1u16, 2, 2, 3]);
+                    let unordered = sid == 2;
+                    let ssn = if unordered { 0 } else { let v = next_ssn[sid as usize]; next_ssn[sid as usize] += 1; v };
+                    let nfrag = rng.range(1, 3) as usize;
+                    // reliability is a property of the channel: fixed per stream within a case
+                    let (mr, exp) = match (k + sid as usize) % 4 { 0 => (Some(0u16), false), 1 => (Some(2), false), 2 => (None, true), _ => (None, false) };
+                    let tc = *rng.pick(&[1u32, 1, 2, 3, 4]);
+                    for f in 0..nfrag {
+                        let flags = (if unordered { 4 } else { 0 }) | (if f == 0 { 2 } else { 0 }) | (if f == nfrag - 1 { 1 } else { 0 });
+                        let acked = rng.chance(1, 6);
+                        q.push(hook::VRecord { tsn, len: if acked { 0 } else { 100 + 4 * q.len() }, sent_ms: 0, transmit_count: if f == 0 { tc } else { *rng.pick(&[1u32, tc]) }, missing_reports: 0,
+                            abandoned: false, fast_retransmit: false, needs_retransmit: !acked && rng.chance(1, 4), fast_retransmit_ms: None, in_flight: !acked && rng.chance(2, 3), acked,
+                            stream_id: sid, ssn, flags, max_retransmits: mr, has_expiry: exp });
+                        msg_of.push(m);
+                        tsn = tsn.wrapping_add(1);
+                    }
+                }
+                let expired: Vec<u32> = q.iter().filter(|r| r.has_expiry && rng.chance(1, 3)).map(|r| r.tsn).collect();
+                let peer_cum = base.wrapping_sub(1);
+                let advanced = if rng.chance(1, 5) { base.wrapping_sub(3) } else { peer_cum };
+                q.sort_by_key(|r| r.tsn);
+                let sorted_msg: Vec<usize> = { let mut idx: Vec<usize> = (0..msg_of.len()).collect(); idx.sort_by_key(|i| base.wrapping_add(*i as u32)); idx.iter().map(|i| msg_of[*i]).collect() };
+                let tsn_msg = |t: u32| msg_of[t.wrapping_sub(base) as usize];
+                let _ = sorted_msg;
+                let (adv, pend, mut pairs, fl, chunk) = ep.sctp.verif_pr_advance(&q, &expired, advanced, peer_cum);
+                let after = ep.sctp.verif_sent_queue();
+                pairs.sort();
+                let prt = |r: &hook::VRecord| format!("{},{},{},{},{},{},{},{},{},{},{}", r.tsn, r.len, r.transmit_count, r.abandoned as u8, r.needs_retransmit as u8, r.in_flight as u8,
+                    r.acked as u8, r.stream_id, r.ssn, r.max_retransmits.map(|v| v.to_string()).unwrap_or("-".into()), r.has_expiry as u8);
+                let input = format!("{advanced} {peer_cum} {} {}", crate::props::c01::show_u32s(&expired), q.iter().map(prt).collect::<Vec<_>>().join(" "));
+                let ctext = match &chunk { None => "-".to_string(), Some(c) => if pairs.len() <= 1 { hex(c) } else { format!("multi:{}", c.len()) } };
+                let out = format!("adv={adv} pend={} fl={fl} pairs={} chunk={ctext} | {}", pend as u8,
+                    if pairs.is_empty() { "-".to_string() } else { pairs.iter().map(|(a, b)| format!("{a}:{b}")).collect::<Vec<_>>().join(",") },
+                    if after.is_empty() { "-".to_string() } else { after.iter().map(prt).collect::<Vec<_>>().join(" ") });
+                // oracle: which messages had a reason to be abandoned
+                let due: Vec<usize> = q.iter().filter(|r| !r.acked && (r.max_retransmits.map_or(false, |m| r.transmit_count > m as u32) || (r.has_expiry && expired.contains(&r.tsn)))).map(|r| tsn_msg(r.tsn)).collect();
+                for r in &q {
+                    let gone_or_abandoned = match after.iter().find(|x| x.tsn == r.tsn) { None => true, Some(x) => x.abandoned };
+                    if gone_or_abandoned && !due.contains(&tsn_msg(r.tsn)) {
+                        collateral += 1;
+                        let kind = if r.flags & 4 != 0 { "unordered-channel-ssn-always-0" } else { "ordered-channel" };
+                        run.fail(&format!("pr:message-abandoned-without-cause:{kind}"), &format!("prsend {input}"), &format!("TSN {} (stream {}, message #{}) was abandoned although no chunk of its message exhausted its retransmissions or lifetime", r.tsn, r.stream_id, tsn_msg(r.tsn)));
+                        break;
+                    }
+                }
+                run.case("prsend", &input, &out, adv != advanced);
+            }
+            run.count_n("prsend_cases", n as u64);
+            run.count_n("prsend_collateral_abandonment", collateral);
+            ep.shutdown();
+        });
+    }
     // the third Close emitter, `PeerConnection::close`: channels created on a real PeerConnection, closed by the
     // application and / or by close() (twice): never more than one Close per channel
     {
@@ -421,7 +494,10 @@ pub fn run(args: &Args) {
         use crate::props::c10::pair::{Cfg, IceOpt, Knobs, Mix, Mode, Pair, wait_open};
         let rt = tokio::runtime::Builder::new_multi_thread().worker_threads(4).enable_all().build().unwrap();
         for variant in 0..2 {
-            let res: Result<Vec<usize>, String> = rt.block_on(async {
+            let late_flag = std::sync::Arc::new(std::sync::atomic::AtomicBool::new(false));
+            let lf = late_flag.clone();
+            let res: Result<Vec<usize>, String> = rt.block_on(async move {
+                let mut late_lost = false;
                 let cfg = Cfg { mode: Mode::WebRtc, mix: Mix::Data, bundle: 0, mux_require: true, ice: IceOpt::Full, latching: false, legacy: false, p_offers: true };
                 let mut p = Pair::create(cfg, &Knobs::default());
                 p.negotiate().await?;
@@ -430,6 +506,19 @@ pub fn run(args: &Args) {
                 let (odc, adc) = (p.off.dc.clone().ok_or("no offerer channel")?, p.ans.dc.clone().ok_or("no answerer channel")?);
                 wait_open(&odc, Duration::from_secs(5)).await?;
                 if variant == 1 { if let Some(t) = p.off.pc.verif_lc_sctp_transport() { let _ = t.close_data_channel(odc.id).await; } tokio::time::sleep(Duration::from_millis(100)).await; }
+                // RFC 8832 §6: the opener may send right after creating the channel (its OPEN is sent from a spawned task:
+                // the data must not overtake it) — the peer gets the channel and the message
+                if variant == 0 {
+                    let late = p.off.pc.create_data_channel("late", None).map_err(|e| format!("create late channel: {e}"))?;
+                    p.off.pc.send_data(late.id, b"sent right after create_data_channel").await.map_err(|e| format!("immediate send refused: {e}"))?;
+                    let pc = p.ans.pc.clone();
+                    let got = tokio::time::timeout(Duration::from_secs(4), async move {
+                        loop { match pc.recv().await { Some(rustrtc::PeerConnectionEvent::DataChannel(dc)) if dc.label == "late" => {
+                                loop { match dc.recv().await { Some(DataChannelEvent::Message(m)) => return m.as_ref() == b"sent right after create_data_channel", Some(_) => {}, None => return false } } }
+                            Some(_) => {}, None => return false } }
+                    }).await;
+                    if got != Ok(true) { late_lost = true; }
+                }
                 p.off.pc.close(); p.ans.pc.close();
                 tokio::time::sleep(Duration::from_millis(300)).await;
                 let mut counts = vec![];
@@ -438,8 +527,10 @@ pub fn run(args: &Args) {
                     while let Some(Some(ev)) = futures::FutureExt::now_or_never(tokio::task::unconstrained(dc.recv())) { if matches!(ev, DataChannelEvent::Close) { n += 1; } }
                     counts.push(n);
                 }
+                lf.store(late_lost, std::sync::atomic::Ordering::SeqCst);
                 Ok(counts)
             });
+            if late_flag.load(std::sync::atomic::Ordering::SeqCst) { run.fail("dcep:data-sent-right-after-create-lost", "pcclose-live 0", "a message sent immediately after create_data_channel on an established connection never reached the peer's new channel"); }
             match res {
                 Ok(counts) => {
                     if counts.iter().any(|n| *n > 1) { run.fail("close:more-than-once", &format!("pcclose-live {variant}"), &format!("connected PeerConnection pair closed: Close events [offerer, answerer] = {counts:?}")); }
